@@ -1324,7 +1324,7 @@ impl Parser {
         }
 
         match &self.current {
-            Some((_, Token::Operator(Operator::Comma))) => {
+            Some((_, Token::Operator(Operator::Comma))) if colon == 0 => {
                 // [a, ...
                 while self.skipped(Operator::Comma)? {
                     if self.current_is(Operator::BarackRight) {
